@@ -10,6 +10,7 @@ use vsched::{ExecCfg, Outcome, PointKind};
 use crate::common::*;
 
 struct Dummy;
+#[cfg_attr(feature = "alt", ractor::async_trait)]
 impl Actor for Dummy {
     type Msg = u32;
     type State = ();
@@ -352,6 +353,150 @@ fn live_body(shape: Shape, at_root: bool, cause: Cause, race: Race, local_child:
     })
 }
 
+
+// ---------------------------------------------------------------------------------------------
+// exits before the actor ever ran: the subtree it linked in pre_start must go down with it
+// ---------------------------------------------------------------------------------------------
+
+#[derive(Clone, Copy, Debug, PartialEq, Eq)]
+enum StartFail {
+    Err,
+    Panic,
+    /// the spawning future is dropped before its k-th poll
+    CutFuture(usize),
+    /// the supervisor is told to stop while the actor starts
+    SupStops,
+    /// the supervisor is killed while the actor starts
+    SupKilled,
+}
+
+fn startup_body(fail: StartFail, linked: bool, local: bool, instant: bool) -> vsched::Body {
+    Arc::new(move || {
+        Box::pin(async move {
+            let log = Log::default();
+            let spawner = ractor::thread_local::ThreadLocalActorSpawner::verif_new_local();
+            let cells: Arc<Mutex<Vec<(String, ActorCell)>>> = Arc::new(Mutex::new(Vec::new()));
+            let inv_cells = cells.clone();
+            vsched::set_invariant(move || {
+                let c = inv_cells.lock().unwrap().clone();
+                tree_invariants(&c)
+            });
+            let (s, sh) = Actor::spawn(None, Probe, args("S", Prog::default(), &log)).await.expect("S");
+            cells.lock().unwrap().push(("S".into(), s.get_cell()));
+            // P's pre_start links K1 beneath itself, K1's pre_start links K2 beneath K1
+            let (log1, log2, c1, c2, c3) = (log.clone(), log.clone(), cells.clone(), cells.clone(), cells.clone());
+            let grandkid: Step = Step::Custom(
+                "grandkid",
+                Arc::new(move |me: ActorRef<PMsg>| {
+                    let (log, cells) = (log2.clone(), c3.clone());
+                    Box::pin(async move {
+                        cells.lock().unwrap().push(("K1".into(), me.get_cell()));
+                        if let Ok((k2, _)) = Actor::spawn_linked(None, Probe, args("K2", Prog::default(), &log), me.get_cell()).await {
+                            cells.lock().unwrap().push(("K2".into(), k2.get_cell()));
+                        }
+                        Ok(())
+                    })
+                }),
+            );
+            let kid: Step = Step::Custom(
+                "kid",
+                Arc::new(move |me: ActorRef<PMsg>| {
+                    let (log, cells, grandkid) = (log1.clone(), c2.clone(), grandkid.clone());
+                    Box::pin(async move {
+                        cells.lock().unwrap().push(("P".into(), me.get_cell()));
+                        let prog = Prog { pre_start: vec![grandkid], ..Default::default() };
+                        let _ = Actor::spawn_linked(None, Probe, args("K1", prog, &log), me.get_cell()).await;
+                        Ok(())
+                    })
+                }),
+            );
+            let _ = c1;
+            let mut pre = vec![kid, Step::Yield, Step::Tick];
+            match fail {
+                StartFail::Err => pre.push(Step::Err("nope")),
+                StartFail::Panic => pre.push(Step::Panic("nope-panic")),
+                _ => pre.push(Step::Yield),
+            }
+            let a = args("P", Prog { pre_start: pre, ..Default::default() }, &log);
+            let sup = if linked { Some(s.get_cell()) } else { None };
+            let s2 = s.clone();
+            let closer = vsched::spawn("closer", async move {
+                match fail {
+                    StartFail::SupStops => s2.stop(None),
+                    StartFail::SupKilled => s2.kill(),
+                    _ => {}
+                }
+            });
+            use ractor::thread_local::ThreadLocalActor;
+            // (instant variants return at once; their start-up runs in a task of its own)
+            let fut = async {
+                match (local, sup, instant) {
+                    (false, None, false) => Actor::spawn(None, Probe, a).await.map(|(r, h)| (r, Some(h))),
+                    (false, Some(sp), false) => Actor::spawn_linked(None, Probe, a, sp).await.map(|(r, h)| (r, Some(h))),
+                    (true, None, false) => <Probe as ThreadLocalActor>::spawn(None, a, spawner.clone()).await.map(|(r, h)| (r, Some(h))),
+                    (true, Some(sp), false) => <Probe as ThreadLocalActor>::spawn_linked(None, a, sp, spawner.clone()).await.map(|(r, h)| (r, Some(h))),
+                    (false, None, true) => ractor::ActorRuntime::<Probe>::spawn_instant(None, Probe, a).map(|(r, _)| (r, None)),
+                    (false, Some(sp), true) => ractor::ActorRuntime::<Probe>::spawn_linked_instant(None, Probe, a, sp).map(|(r, _)| (r, None)),
+                    (true, None, true) => <Probe as ThreadLocalActor>::spawn_instant(None, a, spawner.clone()).map(|(r, _)| (r, None)),
+                    (true, Some(sp), true) => <Probe as ThreadLocalActor>::spawn_linked_instant(None, a, sp, spawner.clone()).map(|(r, _)| (r, None)),
+                }
+            };
+            let res = match fail {
+                StartFail::CutFuture(k) => vsched::cut(fut, k).await,
+                _ => Some(fut.await),
+            };
+            let _ = closer.await;
+            vsched::quiesce_time();
+            let mut bad = Vec::new();
+            let started = match res {
+                Some(Ok((p, h))) => {
+                    if !cells.lock().unwrap().iter().any(|c| c.0 == "P") {
+                        cells.lock().unwrap().push(("P".into(), p.get_cell()));
+                    }
+                    // it runs (or ran): end it now, the subtree goes with it
+                    p.stop(None);
+                    if let Some(h) = h {
+                        let _ = h.await;
+                    }
+                    vsched::quiesce_time();
+                    true
+                }
+                _ => {
+                    // a thread-local actor is started by its spawner's own task: dropping the spawning
+                    // future does not cancel that, the actor simply runs without anybody holding its handle
+                    let p = cells.lock().unwrap().iter().find(|c| c.0 == "P").map(|c| c.1.clone());
+                    match p {
+                        Some(p) if matches!(fail, StartFail::CutFuture(_)) && local && p.get_status() == ActorStatus::Running => {
+                            p.stop(None);
+                            vsched::quiesce_time();
+                            true
+                        }
+                        _ => false,
+                    }
+                }
+            };
+            let snapshot: Vec<(String, ActorCell)> = cells.lock().unwrap().clone();
+            for (n, c) in snapshot.iter().filter(|c| c.0 != "S") {
+                if c.get_status() != ActorStatus::Stopped {
+                    bad.push(format!(
+                        "{n} is {:?} after {} and the system went quiet",
+                        c.get_status(),
+                        if started { "its ancestor P was stopped" } else { "P's start-up failed: actors linked beneath an actor that exits before it ever ran must be terminated" }
+                    ));
+                }
+            }
+            bad.extend(tree_invariants(&snapshot));
+            let key = format!("started={started} {:?}", snapshot.iter().map(|c| format!("{}={:?}", c.0, c.1.get_status())).collect::<Vec<_>>());
+            for (_, c) in &snapshot {
+                c.kill();
+            }
+            let _ = sh.await;
+            vsched::quiesce();
+            Outcome { key, violations: bad }
+        })
+    })
+}
+
 const S_KINDS: &[PointKind] = &[PointKind::Atomic, PointKind::Lock, PointKind::Channel, PointKind::Other];
 
 pub fn plan(tier: &str) -> Plan {
@@ -410,10 +555,35 @@ pub fn plan(tier: &str) -> Plan {
             live_body(shape, at_root, cause, race, local),
         )));
     }
+    // exits before the actor ever ran, with a subtree linked from pre_start
+    for local in [false, true] {
+        for linked in [false, true] {
+            for instant in [false, true] {
+                let mut fails = vec![StartFail::Err, StartFail::Panic];
+                if !instant {
+                    fails.extend((1..=if thorough { 8 } else { 5 }).map(StartFail::CutFuture));
+                }
+                if linked {
+                    fails.extend([StartFail::SupStops, StartFail::SupKilled]);
+                }
+                for fail in fails {
+                    let pick = thorough || !instant || matches!(fail, StartFail::Err | StartFail::SupStops);
+                    if pick {
+                        units.push(Unit::explore(Job::new(
+                            format!("startup/{fail:?}/{}{}/{}", if linked { "linked" } else { "plain" }, if instant { "-instant" } else { "" }, if local { "local" } else { "send" }).replace(['(', ')'], ""),
+                            cfg.clone(),
+                            Some(if thorough { 2 } else { 1 }),
+                            startup_body(fail, linked, local, instant),
+                        )));
+                    }
+                }
+            }
+        }
+    }
     Plan {
         property: "C05",
         units,
-        rule: "core: link / relink / unlink / second link / child exit racing the real exit path (ActorLifecycleGuard: Stopping, terminate, unlink, Stopped) on real cells with a decision point before every lock, atomic and signal-port operation, complete tree with sleep sets for the 2-task case, deviation-bounded otherwise; live: real supervision trees (chain, fan, bushy; Send and thread-local children), one node exits by stop/kill/Err/panic while a task spawns under it, links into it, relinks or unlinks a child, deviation-bounded DFS over task-level schedules with the structural invariants (child has at most one supervisor and is in exactly that child set; a stopped actor has neither) evaluated at EVERY scheduling step and the subtree-death clauses at quiescence; non-trivial = execution with >= 1 branching decision".into(),
+        rule: "core: link / relink / unlink / second link / child exit racing the real exit path (ActorLifecycleGuard: Stopping, terminate, unlink, Stopped) on real cells with a decision point before every lock, atomic and signal-port operation, complete tree with sleep sets for the 2-task case, deviation-bounded otherwise; live: real supervision trees (chain, fan, bushy; Send and thread-local children), one node exits by stop/kill/Err/panic while a task spawns under it, links into it, relinks or unlinks a child, deviation-bounded DFS over task-level schedules with the structural invariants (child has at most one supervisor and is in exactly that child set; a stopped actor has neither) evaluated at EVERY scheduling step and the subtree-death clauses at quiescence; startup: an actor whose pre_start linked a child (whose pre_start linked a grandchild) exits before it ever ran (pre_start Err / panic, spawning future dropped before its k-th poll for every k, supervisor stopped or killed meanwhile; spawn, spawn_linked and the instant and thread-local variants), the whole subtree must end Stopped; non-trivial = execution with >= 1 branching decision".into(),
         assumptions: vec![
             "sequential consistency; structural operations are observed at step boundaries only (two independent concurrent reads are not required to agree)".into(),
             "trees of up to 5 nodes, depth 3".into(),
